@@ -31,13 +31,16 @@ THEOREMS = [
     "PorepyVerif.C31.sort_point_pairs_chain_complete",
     "PorepyVerif.C31.sort_points_on_line_perm",
     "PorepyVerif.C31.sort_points_on_line_monotone",
+    "PorepyVerif.C31.sort_point_plane_xy_perm",
+    "PorepyVerif.C31.sort_point_plane_xy_sorted",
+    "PorepyVerif.C31.ang_sorted_clockwise",
 ]
 LEAN_MODULES = ["PorepyVerif.C31.Props"]
 AUDIT = "PorepyVerif/C31/Audit.lean"
 DRIVER = "PorepyVerif/C31/Driver.lean"
 N = {"quick": 700, "thorough": 20000}
 RULE = ("one call per case of is_ccw_polyline / is_ccw_polygon / point_in_polygon / point_in_cell / points_are_collinear / points_are_planar / "
-        "point_inside_half_space_intersection / polygon_hanging_nodes / sort_point_pairs / sort_multiple_point_pairs / sort_points_on_line (compared with the Lean model "
+        "point_inside_half_space_intersection / polygon_hanging_nodes / sort_point_pairs / sort_multiple_point_pairs / sort_points_on_line / sort_point_plane in a plane z = const (compared with the Lean model "
         "AND checked by the exact oracle) or of point_in_polyhedron / PointInPolyhedron.winding_number / sort_point_plane / "
         "sort_triangle_edges / half_space_interior_point (exact oracle only). Coordinates are small integers or dyadics (exact in binary64). "
         "Polygons: convex hulls, star-shaped, rectilinear non-convex templates (L, U, comb, stairs, C, plus) and a dented quad, both orientations, "
@@ -52,7 +55,7 @@ RULE = ("one call per case of is_ccw_polyline / is_ccw_polygon / point_in_polygo
         "distinct = distinct cases")
 TRUSTED = [
     "oracle-only (no Lean model): point_in_polyhedron and PointInPolyhedron (solid angles via arctan2, scipy Delaunay, uniquify_point_set, "
-    "sort_triangle_edges), half_space_interior_point (scipy linprog), sort_point_plane (rotation by an irrational matrix + arctan2), "
+    "sort_triangle_edges), half_space_interior_point (scipy linprog), sort_point_plane in planes other than z = const (rotation by an irrational matrix before arctan2; planes z = const are modelled exactly), "
     "sort_triangle_edges; their oracle is exact rational geometry (ray casting with exact intersection tests, exact angular order)",
     "modelled, not verified (correspondence only): point_in_polygon where the vertical line through the point meets >= 4 edges and the crossing number is even "
     "(needs: a simple polygon has signed crossing number in {-1,0,1}) and in non-generic positions (a vertex exactly above/below the point) -- the theorems cover "
@@ -70,7 +73,7 @@ EXPLANATION = ("CORE (partial): the predicates are modelled branch for branch ov
                "points_are_collinear / points_are_planar (integer inputs: True iff exactly collinear / in the plane, under an explicit bound tol^2*scale<1), "
                "half-space membership (iff all inequalities), sort_point_pairs (every returned result is a valid chain; simple cycles AND simple open chains in any "
                "column order / flips are never rejected and come out as the walk from the first column / from an end point), sort_points_on_line (permutation; "
-               "monotone in the line parameter). Everything involving arctan2 / LP / Delaunay (polyhedron, plane sorting) and the Jordan-curve part of non-convex "
+               "monotone in the line parameter), sort_point_plane in planes z = const (permutation; ordered by the exact arctan2 comparison, i.e. clockwise about the centre). Everything involving arctan2 / LP / Delaunay (polyhedron, plane sorting) and the Jordan-curve part of non-convex "
                "point_in_polygon is tied by correspondence and an exact rational oracle only. Five defects found by this check were repaired in /repo (no open finding).")
 ASSUMPTIONS = ["inputs are small integers / dyadics, so the rational model and binary64 agree exactly on every compared (discrete) output",
                "query points of point_in_cell / polyhedra are either exactly on the boundary (documented answer) or at distance >= ~1e-2 from it; "
